@@ -8,4 +8,5 @@ INVARIANT DropAmpRejected
 INVARIANT LongRejected
 INVARIANT CommentExempt
 INVARIANT InterleaveAccepted
+INVARIANT LoneReported
 CHECK_DEADLOCK FALSE
